@@ -376,7 +376,7 @@ type sepEl struct {
 }
 
 var cmtPieces = []string{"comment", " ", "é", "ポケモン", "\"", "`", "#", "//", "script", "if (", "}", "0x1F", "→", "😀",
-	"\t", "== !=", "'", "TODO: fix", "\"unterminated", "`raw", "-5", "ascii\"x\"", "\uFFFD", "caf\uFFFD au lait", "\uFEFF", "\u2028", "\u00A0", "\u0085"}
+	"\t", "== !=", "'", "TODO: fix", "\"unterminated", "`raw", "-5", "ascii\"x\"", "\uFFFD", "caf\uFFFD au lait", "\uFEFF", "\u2028", "\u00A0", "\u0085", "2 potions", " 100 steps", " 7 \"other.pory\"", "1", "\r", "note:\rlock"}
 
 func genComment(r *rand.Rand, style string) string {
 	var sb strings.Builder
